@@ -153,7 +153,7 @@ def r2_left_wins(rep, ctx):
         order_ok = v[0] == "call" and len(v[2]) == 2 and val_ok(v[2][0], 3, 2) and val_ok(v[2][1], 4, 3)
         rep.check(ok and order_ok, "C03.R2", "same-quantity:result:%d" % n, "the result carries the left operand's quantity (the right one only when the left is dimensionless) and operation(value1, value2)",
                   "the result quantity derives from operand(s) %s%s / the value operation gets %s" % (sorted(x for x in roots if x), "" if ok else " (the right one without the left being dimensionless)", show(v, 100)), node=r, fn=sq)
-    rep.floor("C03.R2", "result returns", n, 2)
+    rep.floor("C03.R2", "result returns", n, 1)
 
 
 def r3_exponent_flows(rep, ctx):
@@ -165,7 +165,7 @@ def r3_exponent_flows(rep, ctx):
         raise AnalysisError("_MatchQuantities: the unpacking of a [unit, exp] entry was not found")
     unit_v, exp_v = (e.id for e in unpacks[0].targets[0].elts)
     convs = [c for c in own_nodes(fn.node) if isinstance(c, ast.Call) and isinstance(c.func, ast.Attribute) and c.func.attr in ("Convert", "_ConvertWithExp")]
-    rep.floor("C03.R3", "conversions in unit matching", len(convs), 2)
+    rep.floor("C03.R3", "conversions in unit matching", len(convs), 1)
     # def-use: does the exponent reach any conversion (directly or through locals)?
     uses = [x for x in ast.walk(fn.node) if isinstance(x, ast.Name) and x.id == exp_v and isinstance(x.ctx, ast.Load)]
     for c in convs:
@@ -192,7 +192,7 @@ def r4_dispatch(rep, ctx):
     m = ctx.model
     n = dispatch.check_dunders(rep, "C03.R4", m, "Scalar", kinds=("add", "sub"), with_lambda=True)
     n += dispatch.check_dunders(rep, "C03.R4", m, "Array", kinds=("add", "sub"))
-    rep.floor("C03.R4", "add/sub dunders", n, 8)
+    rep.floor("C03.R4", "add/sub dunders", n, 4)
 
 
 def r5_label_and_value(rep, ctx, RID="C03.R5"):
@@ -255,7 +255,7 @@ def r5_label_and_value(rep, ctx, RID="C03.R5"):
                     side_ok = True
         rep.check(val_ok and from_ok and to_ok and side_ok, RID, "_MatchQuantities:convert:%s" % side, "%s is converted from the entry's unit to the reference unit, in the arm of its own map" % side,
                   "`%s` does not convert %s from the entry's unit to the reference unit in the arm of its own map (value %s, from %s, to %s, arm %s)" % (norm(ast.unparse(st)), side, val_ok, from_ok, to_ok, side_ok), node=st, fn=fn)
-    rep.floor(RID, "value conversions in unit matching", len(conv_assigns), 2)
+    rep.floor(RID, "value conversions in unit matching", len(conv_assigns), 1)
     # the reference unit is the first unit seen of the quantity type
     firsts = [st for st in own_statements(fn.node) if isinstance(st, ast.Assign) and isinstance(st.targets[0], ast.Subscript) and "quantity_types_found_to_used_unit" in ast.unparse(st.targets[0])]
     ok = len(firsts) == 1 and ast.unparse(firsts[0].value) == "unit" and ast.unparse(firsts[0].targets[0].slice) == "quantity_type"
